@@ -149,8 +149,13 @@ def run(ctx):
                 ok = ok and g.succ(s) == ["RET(ev:success)"]
             ctx.ob("R3", "truth=status.success()", ok, "the action must be true exactly when the child's ExitStatus::success(), and false when it cannot be started; events: %s" % g.fmt(), fn=mf, how="event graph")
         ios = [n for n in g.out if C.base(n).startswith("io:")]
+        flushes = [n for n in ios if C.base(n) == "io:flush_output"]
+        others = [n for n in ios if C.base(n) != "io:flush_output"]
         io_uses = _uses_of_arg(mf, 3)
-        ctx.ob("R3", "matcher-io-untouched", not ios and not io_uses, "SingleExecMatcher::matches uses its MatcherIO (%s, %d other uses): a failing or missing command must not change find's exit status, quit or prune" % (ios, len(io_uses)), fn=mf, how="uses of the parameter")
+        ctx.ob("R3", "matcher-io-untouched", not others and len(io_uses) <= len(flushes), "SingleExecMatcher::matches uses its MatcherIO for %s (%d uses of the parameter): a failing or missing command must not change find's exit status, quit or prune — flushing find's own output before the command starts is the only use" % ([C.base(n) for n in ios], len(io_uses)), fn=mf, how="uses of the parameter")
+        # the command finds (and extends) find's earlier output in order: flush before every run
+        before = {"ENTRY"} | g.reach(["ENTRY"], stop_roles=("io:flush_output",))
+        ctx.ob("R2", "output-flushed-before-run", bool(flushes) and not any(C.base(x) == "run" for x in before), "every path to the start of the command passes MatcherIO::flush_output (with stdout on a pipe or file the output of earlier actions would otherwise appear after the command's); events: %s" % g.fmt()[:300], fn=mf, how="must-pass on the event graph")
         # ---- R4 execdir
         pl = C.find_local(mf, "path_to_file", ty="std::path::PathBuf")
         if pl:
